@@ -67,7 +67,7 @@ def gen_pairs(ctx):
         for b in allv:
             if ctx.tier == "thorough" or rng.random() < 0.45 or (a in NUMS and b in NUMS):
                 pairs.append((a, b))
-    n = 1500 if ctx.tier == "quick" else 40000
+    n = 1500 if ctx.tier == "quick" else 200000
     for _ in range(n):
         a = G.rand_doc(rng, 3)
         r = rng.random()
